@@ -72,6 +72,9 @@ func be() Backend {
 	return nil
 }
 
+//go:noinline
+func use(interface{}) {}
+
 // ------------------------------------------------------------------ wrappers
 
 var errSim = errors.New("not available on a simulated connection")
@@ -330,6 +333,7 @@ func (d *Dialer) DialContext(ctx context.Context, network, address string) (Conn
 		if err := ctx.Err(); err != nil {
 			return nil, err
 		}
+		use(d.Real()) // package net reads the dialer's settings here; so does the stand-in
 		c, err := b.Dial(network, address)
 		if err != nil {
 			return nil, err
@@ -369,6 +373,7 @@ func (lc *ListenConfig) Listen(ctx context.Context, network, address string) (Li
 		if err := ctx.Err(); err != nil {
 			return nil, err
 		}
+		use(lc.Real()) // package net reads the settings here; so does the stand-in
 		l, err := b.Listen(network, address)
 		if err != nil {
 			return nil, err
